@@ -92,53 +92,114 @@ theorem stage3_eq (hash : Bytes → Nat) (sat : Nat → Bytes → Bool) (R : Lis
     have h2 : ∀ n, Ctx.fresh.param n = [] := fun _ => rfl
     simp only [h1, h2]
 
+/-- the table compiled from a method tree answers like the list of its parameter-free routes, for every
+bloom configuration -/
+theorem versionTable_get (hash : Bytes → Nat) (size k : Nat) (R : List Route)
+    (hN : ∀ r ∈ R, NormalPat r.text r.pat) (m path : Bytes) (hinj : InjOn hash (path :: R.map (·.text))) :
+    (versionTable hash size k (treeFor R m)).bind (·.get hash path) =
+      (getStatic path (staticsOf R m)).map fun lf => (path, lf) := by
+  have htg : ∀ b0, (fillTable hash (treeFor R m) ⟨[], b0⟩).get hash path =
+      (getStatic path (staticsOf R m)).map fun lf => (path, lf) := by
+    intro b0
+    rw [fillTable_eq, treeFor_char R hN m]
+    exact table_get_statics hash R hN m _ path hinj
+  unfold versionTable
+  by_cases hc : countStatic (treeFor R m) = 0
+  · rw [if_pos hc]
+    have : staticsOf R m = [] := by
+      have hcs : (treeFor R m).statics.length = 0 := by
+        unfold countStatic at hc; omega
+      rw [treeFor_char R hN m] at hcs
+      exact List.eq_nil_of_length_eq_zero hcs
+    rw [this]; rfl
+  · rw [if_neg hc]
+    dsimp only
+    generalize (if size = 1000 then optimalBloom (countStatic (treeFor R m)) else size) = sz
+    by_cases hempty : (fillTable hash (treeFor R m) ⟨[], Bloom.new sz k⟩).routes.isEmpty = true
+    · rw [if_pos hempty]
+      show none = _
+      rw [← htg (Bloom.new sz k)]
+      have hok : TableOK (fillTable hash (treeFor R m) ⟨[], Bloom.new sz k⟩) := by
+        rw [fillTable_eq]; exact fold_ok hash _ _ (by intro h hh; simp [mapGet] at hh)
+      rw [Table.get_eq hash _ hok, List.isEmpty_iff.mp hempty]
+      rfl
+    · rw [if_neg hempty]
+      exact htg _
+
+/-- the version cache as compiled at warm-up does not depend on the options -/
+theorem versionLookup_char (hash : Bytes → Nat) (o : Opts) (W : List Reg) (R : List Route)
+    (hR : specRoutes W = some R) (hN : ∀ r ∈ R, NormalPat r.text r.pat)
+    (hstd : ∀ r ∈ R, r.method ∈ stdMethods) (m path : Bytes) (hinj : InjOn hash (path :: R.map (·.text))) :
+    versionLookup hash o W m path =
+      if R.filter (·.method = m) = [] then none
+      else (getStatic path (staticsOf R m)).map fun lf => (path, lf) := by
+  unfold versionLookup
+  have hT := getT_build false W R hR hstd m
+  unfold getT at hT
+  rw [hT]
+  by_cases hf : R.filter (·.method = m) = []
+  · simp [hf]
+  · simp only [hf, if_false, Option.bind_some]
+    exact versionTable_get hash o.size o.k R hN m path hinj
+
+theorem specRoutesFrom_take (script : List Reg) : ∀ (i : Nat) (R : List Route) (k : Nat),
+    specRoutesFrom i script = some R → specRoutesFrom i (script.take k) = some (R.take k) := by
+  induction script with
+  | nil =>
+    intro i R k h
+    simp only [specRoutesFrom, Option.some.injEq] at h
+    subst h; simp [specRoutesFrom]
+  | cons g gs ih =>
+    intro i R k h
+    cases k with
+    | zero => simp [specRoutesFrom]
+    | succ k =>
+      simp only [specRoutesFrom] at h
+      cases hp : parsePattern (g.groups.foldr (· ++ ·) g.path) with
+      | none => simp [hp] at h
+      | some p =>
+        cases hr : specRoutesFrom (i + 1) gs with
+        | none => simp [hp, hr] at h
+        | some rest =>
+          simp only [hp, hr, Option.some.injEq] at h
+          subst h
+          simp only [List.take_succ_cons, specRoutesFrom, hp, ih (i + 1) rest k hr]
+
+/-- the routes warm-up has seen are a prefix of the routes of the script -/
+theorem warmed_routes (o : Opts) (script : List Reg) (R : List Route) (hR : specRoutes script = some R) :
+    ∃ R', specRoutes (o.warmed script) = some R' ∧ ∀ r ∈ R', r ∈ R := by
+  unfold Opts.warmed
+  cases o.warmAt with
+  | none => exact ⟨R, hR, fun _ h => h⟩
+  | some k => exact ⟨R.take k, specRoutesFrom_take script 0 R k hR, fun _ h => List.mem_of_mem_take h⟩
+
 /-- **The version cache is invisible**: inside a version tree the answer does not depend on the
-bloom filter size, the number of hash functions, or whether route compilation is on. -/
+bloom filter size, the number of hash functions, or whether route compilation is on (for the same
+placement of the explicit `Warmup()` call, if any). -/
 theorem versioned_transparent (hash : Bytes → Nat) (sat : Nat → Bytes → Bool) (o o' : Opts)
+    (hw : o.warmAt = o'.warmAt)
     (noRoute : Bool) (script : List Reg) (R : List Route) (hR : specRoutes script = some R)
     (hN : ∀ r ∈ R, NormalPat r.text r.pat) (hstd : ∀ r ∈ R, r.method ∈ stdMethods) (req : Req)
     (hinj : InjOn hash (req.path :: R.map (·.text))) :
     serveVersioned hash sat o script noRoute req = serveVersioned hash sat o' script noRoute req := by
-  have hkey : ∀ (o : Opts) (t : Tree), t = treeFor R req.method →
-      (versionTable hash o.size o.k t).bind (·.get hash req.path) =
-        (getStatic req.path (staticsOf R req.method)).map fun lf => (req.path, lf) := by
-    intro o t ht
-    subst ht
-    have htg : ∀ b0, (fillTable hash (treeFor R req.method) ⟨[], b0⟩).get hash req.path =
-        (getStatic req.path (staticsOf R req.method)).map fun lf => (req.path, lf) := by
-      intro b0
-      rw [fillTable_eq, treeFor_char R hN req.method]
-      exact table_get_statics hash R hN req.method _ req.path hinj
-    unfold versionTable
-    by_cases hc : countStatic (treeFor R req.method) = 0
-    · rw [if_pos hc]
-      have : staticsOf R req.method = [] := by
-        have hcs : (treeFor R req.method).statics.length = 0 := by
-          unfold countStatic at hc; omega
-        rw [treeFor_char R hN req.method] at hcs
-        exact List.eq_nil_of_length_eq_zero hcs
-      rw [this]; rfl
-    · rw [if_neg hc]
-      dsimp only
-      generalize (if o.size = 1000 then optimalBloom (countStatic (treeFor R req.method)) else o.size) = sz
-      by_cases hempty : (fillTable hash (treeFor R req.method) ⟨[], Bloom.new sz o.k⟩).routes.isEmpty = true
-      · rw [if_pos hempty]
-        show none = _
-        rw [← htg (Bloom.new sz o.k)]
-        have hok : TableOK (fillTable hash (treeFor R req.method) ⟨[], Bloom.new sz o.k⟩) := by
-          rw [fillTable_eq]; exact fold_ok hash _ _ (by intro h hh; simp [mapGet] at hh)
-        rw [Table.get_eq hash _ hok, List.isEmpty_iff.mp hempty]
-        rfl
-      · rw [if_neg hempty]
-        exact htg _
+  obtain ⟨R', hR', hsub⟩ := warmed_routes o script R hR
+  have hww : o'.warmed script = o.warmed script := by unfold Opts.warmed; rw [hw]
+  have hinj' : InjOn hash (req.path :: R'.map (·.text)) := by
+    intro a ha b hb hab
+    apply hinj a _ b _ hab
+    · simp only [List.mem_cons, List.mem_map] at ha ⊢
+      rcases ha with ha | ⟨r, hr, ha⟩
+      · exact Or.inl ha
+      · exact Or.inr ⟨r, hsub r hr, ha⟩
+    · simp only [List.mem_cons, List.mem_map] at hb ⊢
+      rcases hb with hb | ⟨r, hr, hb⟩
+      · exact Or.inl hb
+      · exact Or.inr ⟨r, hsub r hr, hb⟩
+  have h1 := versionLookup_char hash o (o.warmed script) R' hR' (fun r hr => hN r (hsub r hr))
+    (fun r hr => hstd r (hsub r hr)) req.method req.path hinj'
+  have h2 := versionLookup_char hash o' (o.warmed script) R' hR' (fun r hr => hN r (hsub r hr))
+    (fun r hr => hstd r (hsub r hr)) req.method req.path hinj'
   unfold serveVersioned
-  have hT := getT_build noRoute script R hR hstd req.method
-  unfold getT at hT
-  dsimp only
-  rw [hT]
-  by_cases hf : R.filter (·.method = req.method) = []
-  · simp [hf]
-  · simp only [hf, if_false]
-    rw [hkey o _ rfl, hkey o' _ rfl]
+  rw [hww, h1, h2]
 
 end Rivaas.CompilerL
